@@ -282,10 +282,27 @@ theorem destFree_iff_preflight (t : Tree) (rs : List Ren) (h1 : LastOnly rs) (h3
 theorem applyPlan_moves (t : Tree) (p : Plan) (h1 : LastOnly p.rens) (h2 : DistinctSources p.rens)
     (h3 : TreeWF t) (h4 : KindsOk t p.rens) (h5 : DestFree t p.rens)
     (hc : (contentPhase p.hunks t (sortedFiles p.hunks)).1 = .ok) :
-    (applyPlan t p).tree = moveAll p.rens (contentPhase p.hunks t (sortedFiles p.hunks)).2 ∧
-    ((applyPlan t p).outcome = .ok ∨ (applyPlan t p).outcome = .backupFailed) := by
+    ((applyPlan t p).outcome = .ok ∧
+      (applyPlan t p).tree = moveAll p.rens (contentPhase p.hunks t (sortedFiles p.hunks)).2) ∨
+    (applyPlan t p).outcome = .backupFailed ∨ (∃ e, (applyPlan t p).outcome = .rollbackFailed e) := by
   rw [moveAll_eq]
   exact RenamePhase.applyPlan_moves t p h1.toLemma h2 h3.toLemma h4.toLemma h5 hc
+
+/-- When every edited file can be read back where STEP 4 looks for it (it is valid UTF-8 at its recorded
+    location), `applyPlan` succeeds and the tree is exactly `moveAll` of what the content phase left.
+    (Since repo commit 6667a82 a STEP 4 failure rolls the renames back instead of leaving them in place, which is
+    why the failing case no longer says anything about the tree here: that is C04's subject.) -/
+theorem applyPlan_moves_ok (t : Tree) (p : Plan) (h1 : LastOnly p.rens) (h2 : DistinctSources p.rens)
+    (h3 : TreeWF t) (h4 : KindsOk t p.rens) (h5 : DestFree t p.rens)
+    (hc : (contentPhase p.hunks t (sortedFiles p.hunks)).1 = .ok)
+    (hread : (sortedFiles p.hunks).all (fun f =>
+        readable (renamePhase (contentPhase p.hunks t (sortedFiles p.hunks)).2 [] (sortRens p.rens)).tree
+          (currentPath (renamePhase (contentPhase p.hunks t (sortedFiles p.hunks)).2 [] (sortRens p.rens)).performed f))
+        = true) :
+    (applyPlan t p).outcome = .ok ∧
+      (applyPlan t p).tree = moveAll p.rens (contentPhase p.hunks t (sortedFiles p.hunks)).2 := by
+  rw [moveAll_eq]
+  exact RenamePhase.applyPlan_moves_ok t p h1.toLemma h2 h3.toLemma h4.toLemma h5 hc hread
 
 /-- … and when a planned destination exists, nothing is touched at all.  Together with
     `applyPlan_moves` and `destFree_iff_preflight`: under `LastOnly`, `DistinctSources`, `TreeWF`,
